@@ -7,6 +7,7 @@ import (
 	"github.com/netflix/rend/common"
 	"github.com/netflix/rend/handlers"
 
+	"verif/fakemc"
 	"verif/refmodel"
 	"verif/wire"
 )
@@ -67,6 +68,26 @@ func CallHandler(h handlers.Handler, op wire.Op) (res HRes) {
 	res = CallHandlerDeferred(h, op)
 	res.Materialize()
 	return res
+}
+
+// CallGuarded is CallHandler on a goroutine of its own; ok=false means the backend connection
+// recorded a read that can never be satisfied (or a spin on a closed connection): the call will
+// never return and is abandoned.
+func CallGuarded(conn *fakemc.Conn, h handlers.Handler, op wire.Op) (res HRes, ok bool) {
+	done := make(chan struct{})
+	var r HRes
+	fin := false
+	go func() {
+		defer close(done)
+		r = CallHandler(h, op)
+		fin = true
+	}()
+	select {
+	case <-done:
+		return r, fin
+	case <-conn.Dead:
+		return HRes{Class: "hung"}, false
+	}
 }
 
 // CallHandlerDeferred is CallHandler without looking at the returned value bytes yet.
